@@ -20,6 +20,14 @@ impl FunctionId { pub fn item(self) -> (r: ItemId) ensures r == self.0 { self.0 
 pub struct VarId(pub ItemId);
 impl VarId { pub fn item(self) -> (r: ItemId) ensures r == self.0 { self.0 } }
 
+
+// `id.into()` (TypeId / FunctionId / VarId -> ItemId) where a unit's R12 rewrite did not apply: the id of the item
+impl vstd::std_specs::convert::FromSpecImpl<TypeId> for ItemId { open spec fn obeys_from_spec() -> bool { true } open spec fn from_spec(t: TypeId) -> ItemId { t.0 } }
+impl core::convert::From<TypeId> for ItemId { fn from(t: TypeId) -> (r: ItemId) { t.0 } }
+impl vstd::std_specs::convert::FromSpecImpl<FunctionId> for ItemId { open spec fn obeys_from_spec() -> bool { true } open spec fn from_spec(t: FunctionId) -> ItemId { t.0 } }
+impl core::convert::From<FunctionId> for ItemId { fn from(t: FunctionId) -> (r: ItemId) { t.0 } }
+impl vstd::std_specs::convert::FromSpecImpl<VarId> for ItemId { open spec fn obeys_from_spec() -> bool { true } open spec fn from_spec(t: VarId) -> ItemId { t.0 } }
+impl core::convert::From<VarId> for ItemId { fn from(t: VarId) -> (r: ItemId) { t.0 } }
 #[verifier::external_body] pub struct BindgenContext { _p: core::marker::PhantomData<()> }
 impl BindgenContext {
     pub uninterp spec fn s_is_stdint(&self, name: &str) -> bool;
